@@ -1,7 +1,7 @@
 (* PV.C17.Examples — non-vacuity: concrete NON-TRIVIAL instances of every hypothesis / guard of the
    theorems in Properties.v. *)
 From Coq Require Import List Bool PArith Arith.
-From PV Require Import Base.PyData C17.Model C17.Check C17.ProofsBuilder C17.Refuted.
+From PV Require Import Base.PyData C17.Model C17.Check C17.ProofsBuilder C17.ProofsOptimize C17.Refuted.
 Import ListNotations.
 Local Open Scope nat_scope.
 
@@ -121,3 +121,45 @@ Proof.
   - eexists. split; vm_compute; reflexivity.
   - eexists. vm_compute. reflexivity.
 Qed.
+
+(* optimize.py: objects scattered, numbers / strings / dicts / callables / quoted input not; the hypotheses of
+   scatter_preserves hold on the diamond's dict; a legal fuse step *)
+Definition e_dict2 : dsk := the_dict (exec_prepare e_wf (SAtom 2000) 100) r_ids.    (* the context is an object *)
+Example scatter_example :
+  scatter (STuple [SFun 1; SAtom 2001; SAtom 1001; SList [SAtom 2002; SStr 7]; STuple [SAtom 2003; SAtom 2004];
+                   SDict [SStr 8] [SAtom 2005]; STuple [SLit (SStr results)]; STuple []])
+  = STuple [SFun 1; SFut (SAtom 2001); SAtom 1001; SList [SFut (SAtom 2002); SStr 7]; STuple [SAtom 2003; SFut (SAtom 2004)];
+            SDict [SStr 8] [SAtom 2005]; STuple [SLit (SStr results)]; STuple []] /\
+  dsk_no_fut e_dict2 = true /\ dlookup (scatter_dsk e_dict2) 13 <> dlookup e_dict2 13 /\
+  dask_get_dist_log fam_apply (scatter_dsk e_dict2) results = dask_get_log fam_apply e_dict2 results.
+Proof.
+  split; [vm_compute; reflexivity|]. split; [vm_compute; reflexivity|]. split; [|vm_compute; reflexivity].
+  vm_compute. discriminate.
+Qed.
+
+Definition chain_dict : dsk := the_dict (workflow_of (add_task (add_task (add_task g_empty x1 []) x2 [x1]) x3 [x2])) r_ids.
+Example fuse_steps_example :
+  snd (fuse_steps chain_dict [FInline 21; FInline 22; FAlias results 99]) = true /\
+  fst (fuse_steps chain_dict [FInline 21; FInline 22; FAlias results 99]) =
+    [(results, SStr 99); (99%positive, STuple [SFun 1; STuple [SFun 1; STuple [SFun 1]]])] /\
+  dask_get_log fam_apply (fst (fuse_steps chain_dict [FInline 21; FInline 22; FAlias results 99])) results
+    = dask_get_log fam_apply chain_dict results /\
+  snd (fuse_steps e_dict [FInline 11]) = false.      (* a has two dependents: not a legal step *)
+Proof. crunch. Qed.
+
+(* queries; get_upstream_tasks lists a task once per edge *)
+Example queries_example :
+  map tid (output_tasks e_wf) = [4%positive] /\ map tid (input_tasks e_wf) = [1%positive] /\
+  map tid (upstream task task_eqb e_wf e_d) = [2; 1; 3; 1]%positive /\
+  map tid (ancestors task task_eqb e_wf e_d) = [2; 3; 1]%positive /\
+  upstream task task_eqb e_wf e_a = [] /\
+  nodes (builder_plus two_x (add_task two_y x1 [])) = [x1; x2; y1; y2].
+Proof. crunch. Qed.
+
+(* call_workflow: hypotheses of call_workflow_context_exact, and the context goes to c only, once *)
+Example call_workflow_example :
+  uids_below 100 e_wf = true /\
+  map tinputs (nodes (call_prepare e_wf e_ctx 100)) =
+    [tinputs e_a; tinputs e_b; e_ctx :: tinputs e_c; tinputs e_d] /\
+  dask_get fam_apply (the_dict (call_prepare e_wf e_ctx 100) r_ids) results = execute fam_apply e_wf e_ctx 100 r_ids.
+Proof. crunch. Qed.
